@@ -13,7 +13,8 @@ RULE = ("feature trees (nesting to depth 6, hidden entries, .gitignore/.fdignore
         "names with regex metacharacters and non-ASCII text, sizes 0..100) x the full product of --depth {unset,0,1,2,3} "
         "x --hidden x --no-ignore x {none,-L,-S,-L -S}, each combined with a rotating choice of size filter, pattern "
         "option and root form, plus a sweep of every pattern option (--name, --path absolute / cwd-relative from two "
-        "working directories, --exclude, --regex, --ignore-case) x link mode x depth {unset,2}; roots single, repeated, "
+        "working directories, --exclude, --regex, --ignore-case) x link mode x depth {unset,2} (thorough: on three trees "
+        "the complete product pattern option x depth x hidden x no-ignore x link mode); roots single, repeated, "
         "overlapping; --one-fs with a link into a second file system and a nested mount. Oracle: reference walk "
         "written from --help/README (a file is selected if some route within the depth limit reaches it; pruning never "
         "changes the result); observed = paths of `group --rf-over 0`. Files below a directory fully matched by an "
@@ -391,6 +392,17 @@ def cases(tier, seed):
                         continue
                     out.append({"tree": tname, "o": dict(po, depth=depth, follow=follow, report_links=rl), "cwd": cwd,
                                 "roots": base_roots})
+    if not quick:
+        # thorough: the complete product pattern option x depth x hidden x no-ignore x link mode on three trees
+        for tname in ("nest", "names", "links"):
+            for lab, po, cwd in popts:
+                for depth in (None, 0, 1, 2, 3):
+                    for hidden in (False, True):
+                        for no_ignore in (False, True):
+                            for follow, rl in ((False, False), (True, False), (False, True), (True, True)):
+                                out.append({"tree": tname, "o": dict(po, depth=depth, hidden=hidden, no_ignore=no_ignore,
+                                                                      follow=follow, report_links=rl),
+                                            "cwd": cwd, "roots": ["r"]})
     # --one-fs: a second file system reached through a link, and a nested mount point
     for follow in (False, True):
         for one_fs in (False, True):
